@@ -16,6 +16,7 @@ import (
 	"compress/flate"
 	"fmt"
 	"hash/crc32"
+	"io/fs"
 	"math/rand/v2"
 	"os"
 	"path/filepath"
@@ -39,6 +40,10 @@ type c12Entry struct {
 	CRC      uint32
 	Mode     string // create (deflate + data descriptor) | raw-store | raw-deflate
 	Fault    string
+	// Attr sets header attributes that have nothing to do with the name: "dirmode" (unix S_IFDIR in the
+	// external attributes), "dosdir" (DOS directory bit), "exec" (0755). The documented rules speak about
+	// entry names only (a directory entry is a name ending in a slash), so these bits must change nothing.
+	Attr string
 }
 
 func (e *c12Entry) isDir() bool { return strings.HasSuffix(e.Name, "/") }
@@ -95,6 +100,9 @@ func c12Honest(r *rand.Rand, name string, maxData int) c12Entry {
 		e.Data, e.Mode = nil, "raw-store"
 	}
 	e.Declared, e.CRC = uint64(len(e.Data)), crc32.ChecksumIEEE(e.Data)
+	if e.Mode != "create" && r.IntN(6) == 0 {
+		e.Attr = gen.Pick(r, []string{"dirmode", "dosdir", "exec", "dirmode"})
+	}
 	return e
 }
 
@@ -364,6 +372,15 @@ func c12Write(ents []c12Entry) []byte {
 				c12Flate.Close()
 				payload = cb.Bytes()
 				fh.Method = zip.Deflate
+			}
+			switch e.Attr {
+			case "dirmode":
+				fh.SetMode(fs.ModeDir | 0o755)
+			case "dosdir":
+				fh.CreatorVersion = 0 // FAT
+				fh.ExternalAttrs = 0x10
+			case "exec":
+				fh.SetMode(0o755)
 			}
 			fh.CRC32 = e.CRC
 			fh.UncompressedSize64 = e.Declared
